@@ -155,6 +155,61 @@ pub fn exec_full(progs: &[(String, Program)], main: &str, binds: &[(String, CelV
     ExecOut { obs, log: format!("L:{}{}{}", entries.len(), if entries.is_empty() { "" } else { " " }, entries.join(" ")) }
 }
 
+/// Like `exec_full`, but hands back the value itself (for oracles that fold over results) and the log entries.
+pub fn exec_val(progs: &[(String, Program)], main: &str, binds: &[(String, CelValue)], users: &[(String, UserFn)]) -> (Result<CelValue, String>, Vec<String>) {
+    let log: std::rc::Rc<RefCell<Vec<String>>> = std::rc::Rc::new(RefCell::new(Vec::new()));
+    let val: std::rc::Rc<RefCell<Option<CelValue>>> = std::rc::Rc::new(RefCell::new(None));
+    let obs = {
+        let log = log.clone();
+        let val = val.clone();
+        guarded(move || {
+            let mut ctx = CelContext::new();
+            for (n, p) in progs.iter() {
+                ctx.add_program(n, p.clone());
+            }
+            let closures: Vec<Box<dyn Fn(CelValue, Vec<CelValue>) -> CelValue>> = users
+                .iter()
+                .map(|(name, kind)| {
+                    let name = name.clone();
+                    let kind = kind.clone();
+                    let log = log.clone();
+                    Box::new(move |this: CelValue, args: Vec<CelValue>| {
+                        log.borrow_mut().push(format!(
+                            "{} {} {}",
+                            crate::wire::hex(name.as_bytes()),
+                            crate::wire::show_val(&this),
+                            crate::wire::show_val(&CelValue::List(args.clone()))
+                        ));
+                        match &kind {
+                            UserFn::Arg0 => args.get(0).cloned().unwrap_or(CelValue::Null),
+                            UserFn::Const(v) => v.clone(),
+                            UserFn::Fail => CelValue::from_err(rscel::CelError::value("user function failed")),
+                        }
+                    }) as Box<dyn Fn(CelValue, Vec<CelValue>) -> CelValue>
+                })
+                .collect();
+            let mut b = BindContext::new();
+            for (k, v) in binds.iter() {
+                b.bind_param(k, v.clone());
+            }
+            for ((name, _), c) in users.iter().zip(closures.iter()) {
+                b.bind_func(name, c.as_ref());
+            }
+            let r = ctx.exec(main, &b);
+            if let Ok(v) = &r {
+                *val.borrow_mut() = Some(v.clone());
+            }
+            show_result(&r)
+        })
+    };
+    let entries = log.borrow().clone();
+    let v = val.borrow_mut().take();
+    match v {
+        Some(v) => (Ok(v), entries),
+        None => (Err(obs), entries),
+    }
+}
+
 /// Wire form of an environment for the model's `vm` command.
 pub fn env_wire(progs: &[(String, Program)], binds: &[(String, CelValue)], users: &[(String, UserFn)]) -> String {
     let mut s = format!("P:{}", binds.len());
